@@ -48,7 +48,7 @@ Definition run_io (w : wire) : wire :=
   run_dec (do mode <- getN; do cb <- getN; do W <- getWorld; do fs <- getList getEntry; do ops <- getList getOp;
            ret (mode, cb, W, fs, ops)) w
     (fun '(mode, cb, W, fs, ops) =>
-       let c := {| consume_before_open := Nat.odd cb; tag_at_gcount := Nat.odd (Nat.div2 cb) |} in
+       let c := {| consume_before_open := Nat.odd cb; tag_at_gcount := Nat.odd (Nat.div2 cb); whole_tag := Nat.odd (Nat.div2 (Nat.div2 cb)) |} in
        let '(t, f) := trace3 c W (match mode with O => false | _ => true end) ops (pst0, fs) in
        t ++ map outEntry f).
 
